@@ -444,6 +444,24 @@ fn child_token_kind(child: GreenNodeId, ctx: &PrintContext) -> Option<TokenKind>
     }
 }
 
+/// The kind of the first token of a subtree (None for a node without tokens).
+fn first_token_kind(node_id: GreenNodeId, ctx: &PrintContext) -> Option<TokenKind> {
+    let mut first = node_id;
+    loop {
+        match ctx.arena.get(first) {
+            mimium_lang::compiler::parser::green::GreenNode::Token { token_index, .. } => {
+                break Some(ctx.tokens[*token_index].kind);
+            }
+            mimium_lang::compiler::parser::green::GreenNode::Internal { children, .. } => {
+                match children.first() {
+                    Some(&c) => first = c,
+                    None => break None,
+                }
+            }
+        }
+    }
+}
+
 /// `type alias T = float`, `type rec L = Nil | Cons(float, L)`: the parts separated by one space.
 fn print_type_decl<'a, D, A>(
     children: &[GreenNodeId],
@@ -1178,30 +1196,27 @@ where
             // This is the condition expression - keep it flat (don't break inside)
             // We use group() on the condition to try to keep it on one line
             // A condition that does not start with `(` must not be glued to the keyword (`if x` is not `ifx`).
-            let mut first = child;
-            let starts_with_paren = loop {
-                match ctx.arena.get(first) {
-                    mimium_lang::compiler::parser::green::GreenNode::Token { token_index, .. } => {
-                        break ctx.tokens[*token_index].kind == TokenKind::ParenBegin;
-                    }
-                    mimium_lang::compiler::parser::green::GreenNode::Internal { children, .. } => {
-                        match children.first() {
-                            Some(&c) => first = c,
-                            None => break false,
-                        }
-                    }
-                }
-            };
+            let starts_with_paren = first_token_kind(child, ctx) == Some(TokenKind::ParenBegin);
             if !starts_with_paren {
                 result = result.append(allocator.space());
             }
             result = result.append(child_doc.group());
             seen_cond = true;
         } else if !seen_then && seen_cond {
-            // This is the then branch - use softline before to allow breaking
-            result = result
-                .append(allocator.softline())
-                .append(child_doc.group());
+            // This is the then branch - use softline before to allow breaking.
+            // A branch that starts with `(`, `[` or `.` stands on a line of its own in the source (on
+            // the line of the condition the parser reads it as a call, an index or a field access of
+            // the condition) and has to stay there.
+            let continues_condition = matches!(
+                first_token_kind(child, ctx),
+                Some(TokenKind::ParenBegin | TokenKind::ArrayBegin | TokenKind::Dot)
+            );
+            let separator = if continues_condition {
+                allocator.hardline()
+            } else {
+                allocator.softline()
+            };
+            result = result.append(separator).append(child_doc.group());
             seen_then = true;
         } else if seen_else {
             // This is the else branch (could be nested IfExpr for else if)
@@ -2743,6 +2758,17 @@ mod tests {
         assert_eq!(format(&first), first);
         let first = format("fn z(r:{a:(float), b:((float)->float)}){\n    1\n}\n");
         assert_eq!(first, "fn z(r:{a:(float), b:((float)->float)}){\n    1\n}\n");
+    }
+
+    #[test]
+    fn test_if_then_branch_on_its_own_line_stays_there() {
+        // on one line this would be the call `(1.0)(2.0)`
+        let first = format("fn dsp(){ if (1.0)\n(2.0) else 3.0 }");
+        assert_eq!(first, "fn dsp(){\n    if(1.0)\n    (2.0) else 3.0\n}\n");
+        assert_eq!(format(&first), first);
+        let first = format("fn dsp(){ if (c)\n[1.0] else [2.0] }");
+        assert_eq!(first, "fn dsp(){\n    if(c)\n    [1.0] else [2.0]\n}\n");
+        assert_eq!(format("fn dsp(){ if (c)\n1.0 else 2.0 }"), "fn dsp(){\n    if(c) 1.0 else 2.0\n}\n");
     }
 
     // ========================================================================
